@@ -131,6 +131,10 @@ void sweep_op(WorldRun &wr, int task, const Pool &pool, const Op &op, uint32_t i
     sim::begin_op(idx, kind == F_ALLOC ? k : -1, kind == F_SCALAR ? k : -1, kind == F_CALLBACK ? k : -1);
     ExecCtx c(wr.w, task, *cp, op);
     c.allow_mail = false;
+    {
+      uint32_t d0, u0;  // tag violations raised by harness snapshots are not this operation's
+      sim::take_tag_violations(d0, u0);
+    }
     exec_op(c);
     if (kind < 0) {
       A = sim::g_cur->alloc_idx;
@@ -197,6 +201,10 @@ void run_op(WorldRun &wr, int task, Pool &pool, const Op &op, uint32_t idx, Task
   if (task >= 0) sim::yield_point(sim::Y_OPBOUND);
   ExecCtx c(wr.w, task, pool, op);
   if (task >= 0) c.pins = &log.pins;
+  {
+    uint32_t d0, u0;  // tag violations raised by harness snapshots are not this operation's
+    sim::take_tag_violations(d0, u0);
+  }
   exec_op(c);
   log.cnt.ops[op.kind]++;
   log.cnt.ops_status[c.out.status]++;
